@@ -5,31 +5,12 @@
 
 use std::path::PathBuf;
 
+use vcheck::{c01, c02, c03, c04, c05, c06, c07, c08, c09, c10, c11, c12, c13, c14, c15, c16, c17, c18, c19, c20};
 use vcommon::ev::{Ctx, Tier};
 
 #[global_allocator]
 static ALLOC: vcommon::alloc::VerifAlloc = vcommon::alloc::VerifAlloc;
 
-mod c01;
-mod c02;
-mod c03;
-mod c04;
-mod c05;
-mod c06;
-mod c07;
-mod c08;
-mod c09;
-mod c10;
-mod c11;
-mod c12;
-mod c13;
-mod c14;
-mod c15;
-mod c16;
-mod c17;
-mod c18;
-mod c19;
-mod c20;
 
 struct PropDef {
     id: &'static str,
